@@ -8,11 +8,11 @@ import (
 	"net"
 	"os"
 	"reflect"
+	"strings"
 	"sync"
 	"testing"
 	"testing/synctest"
 
-	"verif/harness/srvh"
 	"verif/harness/wire"
 
 	"github.com/rminnich/go9p"
@@ -232,6 +232,7 @@ func (s *snap) String() string {
 }
 
 type clntObs struct {
+	Progress  [][2]int // few-cut segmentations: (offset sent, calls completed) at quiescence after each write
 	Order     []int   // request indices in completion order
 	AtDone    []*snap // per request: result when the call completed
 	AtEnd     []*snap // ... and after the whole stream had been received
@@ -412,7 +413,25 @@ func runClnt(t *testing.T, s *clntSession, seg Seg) (obs *clntObs) {
 				}
 				mu.Unlock()
 				obs.Stream = append(obs.Stream, stream...)
-				if !send(stream, off) {
+				sent := 0
+				var rel []int
+				for _, c := range seg.Cuts {
+					if c > off && c < off+len(stream) {
+						rel = append(rel, c-off)
+					}
+				}
+				if bc := Chunks(stream, 0, len(stream), rel); len(bc) > 1 && len(bc) <= 9 {
+					for _, c := range bc[:len(bc)-1] {
+						if !send(stream[sent:sent+len(c)], off+sent) {
+							break
+						}
+						sent += len(c)
+						mu.Lock()
+						obs.Progress = append(obs.Progress, [2]int{off + sent, len(obs.Order)})
+						mu.Unlock()
+					}
+				}
+				if !send(stream[sent:], off+sent) {
 					obs.Stuck = "the client stopped reading the reply stream"
 				}
 				synctest.Wait()
@@ -439,11 +458,28 @@ func runClnt(t *testing.T, s *clntSession, seg Seg) (obs *clntObs) {
 }
 
 func judgeClnt(j *judge, s *clntSession, o, base *clntObs, seg Seg) {
+	if o.Leftover != "" {
+		j.leftovers++
+		if !strings.Contains(o.Leftover, "blocked goroutines remain") {
+			j.rep.Inconclusive = append(j.rep.Inconclusive, "case aborted inside the bubble: "+o.Leftover)
+			return
+		}
+	}
 	ctx := fmt.Sprintf("msize %d (client %d, peer %d), segmentation %s with %d cuts", s.msize, s.cfg.M0, s.cfg.Neg, seg.Class, len(seg.Cuts))
 	sfx := ":seg=" + seg.Class
 	if o.Stuck != "" {
 		j.flag("clnt:stuck"+sfx, o.Stuck+" ("+ctx+")", seg, "")
 		return
+	}
+	for _, pr := range o.Progress {
+		n := 0
+		for n < len(s.perm) && s.starts[s.nver+n+1] <= pr[0] {
+			n++
+		}
+		if pr[1] != n {
+			j.flag("clnt:completion-delayed"+sfx, fmt.Sprintf("after the first %d bytes of the reply stream had been written and the client had gone quiet %d calls had completed; %d whole replies lie in those bytes (%s)", pr[0], pr[1], n, ctx), seg, "")
+			break
+		}
 	}
 	if !reflect.DeepEqual(o.Order, s.perm) {
 		i := 0
@@ -484,9 +520,9 @@ func clntPlans(tier string, seed int64) []clntPlan {
 	ss := func(i int) int64 { return seed*1000 + 500 + int64(i) }
 	if tier == "quick" {
 		return []clntPlan{
-			{ClntCfg{M0: 64, StreamSeed: ss(1), Bytes: 1400}, 2000, 9},
-			{ClntCfg{M0: rm(131, 180), Neg: rm(65, 130), Dotu: true, StreamSeed: ss(2), Bytes: 2400}, 2500, 9},
-			{ClntCfg{M0: rm(200, 600), Neg: 8192, StreamSeed: ss(3), Bytes: 9000}, 250, 9},
+			{ClntCfg{M0: 64, StreamSeed: ss(1), Bytes: 1400}, 900, 9},
+			{ClntCfg{M0: rm(131, 180), Neg: rm(65, 130), Dotu: true, StreamSeed: ss(2), Bytes: 2400}, 900, 9},
+			{ClntCfg{M0: rm(200, 600), Neg: 8192, StreamSeed: ss(3), Bytes: 9000}, 150, 9},
 			{ClntCfg{M0: 4096, Neg: 4096, Dotu: true, StreamSeed: ss(4), Bytes: 80000}, 40, 6},
 		}
 	}
@@ -512,7 +548,7 @@ func TestClntSweep(t *testing.T) {
 	if tier == "" {
 		tier = "quick"
 	}
-	rep := &srvh.Report{Engine: "recv-clnt-sweep", Stats: map[string]any{}, Violations: []srvh.Violation{}, Inconclusive: []string{}, Samples: []any{}}
+	rep := newReport("recv-clnt-sweep")
 	sink := newTraceSink(os.Getenv("VERIF_TRACE_OUT"), envInt("VERIF_TRACE_LINES", 60000))
 	defer sink.close()
 	if rc := os.Getenv("VERIF_REPLAY_CASE"); rc != "" {
@@ -539,7 +575,7 @@ func TestClntSweep(t *testing.T) {
 	}
 	plans := clntPlans(tier, seed)
 	classes := map[string]int{}
-	reallocs, completed, caseID := 0, 0, 0
+	reallocs, completed, caseID, leftovers := 0, 0, 0, 0
 	perCfg := sink.budget / max(1, len(plans))
 	for pi, p := range plans {
 		s := buildClntSession(p.Cfg)
@@ -553,19 +589,23 @@ func TestClntSweep(t *testing.T) {
 			from = s.starts[1]
 		}
 		segs := Plans(s.starts, from, rng, p.MaxSingle, p.NRandom)
+		progress(map[string]any{"engine": "clnt", "cfg": cfg, "seg": Seg{Class: "unsplit"}})
 		base := runClnt(t, s, Seg{Class: "unsplit"})
+		judgeClnt(j, s, base, nil, Seg{Class: "unsplit"})
+		rep.Cases++
+		classes["unsplit"]++
 		if base.Stuck != "" {
-			rep.Inconclusive = append(rep.Inconclusive, fmt.Sprintf("unsplit baseline stuck: %s (cfg %s)", base.Stuck, jsonStr(cfg)))
 			continue
 		}
 		traceBudgetEnd := sink.lines + perCfg
-		nsingle, singleSeen := 0, 0
+		nsingle, singleSeen, longTraced := 0, 0, 0
 		for _, sg := range segs {
 			if sg.Class == "single" || sg.Class == "prefix" {
 				nsingle++
 			}
 		}
 		for _, sg := range segs {
+			progress(map[string]any{"engine": "clnt", "cfg": cfg, "seg": sg})
 			o := runClnt(t, s, sg)
 			judgeClnt(j, s, o, base, sg)
 			rep.Cases++
@@ -576,7 +616,11 @@ func TestClntSweep(t *testing.T) {
 				singleSeen++
 				want = singleSeen%max(1, nsingle/40) == 0
 			}
+			if len(s.frames) > 600 { // long streams make every TLC state big: a few cases only
+				want = want && sg.Class != "bytes" && longTraced < 4
+			}
 			if want && o.Stuck == "" && sink.lines+len(o.Trace)+2 <= traceBudgetEnd && sink.room(len(o.Trace)) {
+				longTraced++
 				caseID++
 				nadv := 0
 				for _, e := range o.Trace {
@@ -603,6 +647,7 @@ func TestClntSweep(t *testing.T) {
 		for k, n := range j.seen {
 			rep.Stats["count:"+k] = n
 		}
+		leftovers += j.leftovers
 		if len(rep.Samples) < 5 {
 			rep.Samples = append(rep.Samples, map[string]any{"cfg": cfg, "msize": s.msize, "calls": len(s.ex), "reply_stream_bytes": s.starts[len(s.starts)-1],
 				"segmentations": len(segs), "unsplit_completed": len(base.Order), "example_seg": segs[len(segs)-1]})
@@ -612,6 +657,7 @@ func TestClntSweep(t *testing.T) {
 	rep.Stats["classes"] = classes
 	rep.Stats["reallocations_observed"] = reallocs
 	rep.Stats["calls_completed"] = completed
+	rep.Stats["cases_ending_with_blocked_library_goroutines"] = leftovers
 	rep.Stats["trace_cases"] = sink.cases
 	rep.Stats["trace_lines"] = sink.lines
 	if err := rep.Write(); err != nil {
